@@ -37,6 +37,10 @@ var c07Key = [32]byte{7, 7, 7, 1, 2, 3}
 // verbatimDup[i] makes history element i (when its timestamp equals its predecessor's) the predecessor's exact bytes.
 var verbatimDup = map[int]bool{}
 
+// transportGap[i]: before history element i the transport reports one error (a read deadline, a serial
+// hiccup) and then goes on; the reader is the same object, so the link's window is the same too.
+var transportGap = map[int]bool{}
+
 // linkOf picks the signature link id of the i-th frame of a history: the replay window belongs to the
 // reader (the link), not to the link id a frame claims, so histories mix link ids.
 func linkOf(seq byte) byte { return []byte{3, 3, 0, 255, 7, 3, 200, 1}[int(seq)%8] }
@@ -82,7 +86,18 @@ func runHistoryDialect(hist []uint64, di *dialectInfo, known []bool) (string, er
 	if di != nil {
 		drw = di.rw
 	}
-	res, terr, herr := readAll(&chunkReader{data: stream, failAt: -1}, drw, keyOf(&c07Key), len(stream)+2)
+	var tr map[int]bool
+	if len(transportGap) > 0 {
+		tr = map[int]bool{}
+		off := 0
+		for i, l := range lens {
+			if transportGap[i] {
+				tr[off] = true
+			}
+			off += l
+		}
+	}
+	res, terr, herr := readAll(&chunkReader{data: stream, failAt: -1, transient: tr}, drw, keyOf(&c07Key), len(stream)+2+len(tr))
 	if herr != nil {
 		return "", herr
 	}
@@ -183,7 +198,7 @@ func TestC07WindowEnumerated(t *testing.T) {
 
 func TestC07WindowRandom(t *testing.T) {
 	rec := evid.New(t, "C07", "rapid histories (<=40 frames) mixing boundary values, random 48-bit timestamps and newest+-delta around 1,000,000; model comparison at every step; non-trivial = some frame older than newest but inside the window, on the boundary, or newest < 1,000,000; distinct by hash of the history")
-	rec.Require("inside-window", "on-boundary", "just-outside", "newest-below-window", "forged-interleaved", "dialect-reader-known+unknown-messages", "frame-repeated-byte-for-byte", "run-of-8+-stale-frames-with-rising-timestamps")
+	rec.Require("inside-window", "on-boundary", "just-outside", "newest-below-window", "forged-interleaved", "dialect-reader-known+unknown-messages", "frame-repeated-byte-for-byte", "run-of-8+-stale-frames-with-rising-timestamps", "transport-error-between-frames")
 	common, _ := dialects(t)
 	evid.Check(t, rec, evid.N(40000, 200000), func(t *rapid.T) {
 		readBufSize = 512
@@ -192,6 +207,7 @@ func TestC07WindowRandom(t *testing.T) {
 		var m windowModel
 		sawDup, sawStaleRun := false, false
 		verbatimDup = map[int]bool{}
+		transportGap = map[int]bool{}
 		staleRun := 0
 		var staleNext uint64
 		for i := 0; i < n; i++ {
@@ -263,6 +279,21 @@ func TestC07WindowRandom(t *testing.T) {
 			t.Fatalf("%v", err)
 		}
 		var cs []string
+		// the same history with the transport failing once at up to three places between frames
+		if rapid.Bool().Draw(t, "with_transport_gaps") {
+			for k := rapid.IntRange(1, 3).Draw(t, "ngaps"); k > 0; k-- {
+				transportGap[rapid.IntRange(1, len(hist)).Draw(t, "gap_before")%len(hist)] = true
+			}
+			_, err := runHistory(hist, nil)
+			gaps := fmt.Sprint(transportGap)
+			transportGap = map[int]bool{}
+			if err != nil {
+				msg := fmt.Sprintf("with one transport error (after which the transport went on) before the elements %s: %v", gaps, err)
+				evid.ReplayNote("C07", "TestC07WindowRandom", msg)
+				t.Fatalf("%s", msg)
+			}
+			cs = append(cs, "transport-error-between-frames")
+		}
 		// the same history on a reader that has a dialect, the frames carrying known and unknown messages
 		if rapid.Bool().Draw(t, "with_dialect") {
 			known := rapid.SliceOfN(rapid.Bool(), len(hist), len(hist)).Draw(t, "known_message")
